@@ -393,6 +393,15 @@ func (h *http2FrameTracer) traceFrameLocked(data []byte) (int, bool) {
 }
 
 func (h *http2FrameTracer) emitFrame() bool {
+	switch h.header.Type {
+	case http2.FrameHeaders, http2.FramePushPromise, http2.FrameContinuation:
+		if !h.header.Flags.Has(http2.FlagHeadersEndHeaders) {
+			// The field block continues in CONTINUATION frames, which must
+			// follow immediately. So keep what we have and decode all of the
+			// frames together once we have the one that ends the block.
+			return true
+		}
+	}
 	defer func() {
 		h.frame.Reset()
 	}()
